@@ -151,16 +151,22 @@ def queryWriter (c : AddrCodec) (s : State) (ownerAddress topicName writerAddres
   | some x => .ok x
   | none => .err "not-found"
 
-/-- `onResult` of the two listings: decode `prefix ++ rest` into the typed key and project a component. -/
-def decodeListed (k : Kind) (pfx : Bytes) (idx : Nat) (items : List (Bytes × α)) : Outcome (List Bytes) :=
-  items.foldr (fun e acc => do
-      let rest ← acc
-      match decodeTyped k (pfx ++ e.1) with
-      | .ok comps => match comps[idx]? with
-        | some x => .ok (x :: rest)
-        | none => .err "decode"
-      | .err c => .err c
-      | .panic p => .panic p) (.ok [])
+/-- `onResult` of the two listings, applied to the page's entries in order: decode `prefix ++ rest` into
+the typed key and project a component; the first failure aborts the query. -/
+def decodeListed (k : Kind) (pfx : Bytes) (idx : Nat) : List (Bytes × α) → Outcome (List Bytes)
+  | [] => .ok []
+  | e :: rest =>
+    match decodeTyped k (pfx ++ e.1) with
+    | .ok comps =>
+      match comps[idx]? with
+      | some x =>
+        match decodeListed k pfx idx rest with
+        | .ok r => .ok (x :: r)
+        | .err c => .err c
+        | .panic p => .panic p
+      | none => .err "decode"
+    | .err c => .err c
+    | .panic p => .panic p
 
 /-- `Query/Topics`: topic names of an owner, paginated. -/
 def queryTopics (c : AddrCodec) (s : State) (ownerAddress : Bytes) (req : Paginate.PageRequest) :
